@@ -1346,6 +1346,7 @@ fn op_rta(w: &World, toks: &[&str]) -> R<String> {
     dump_rta(&mut db, built.content());
     let (der_bytes, content) = match stage("encode", || (built.to_captured().into_bytes(), built.content().encode_ref().to_captured(Mode::Der).into_bytes())) {
         Ok(b) => b, Err(p) => return Ok(early(&mk, &db, p)) };
+    stash(&der_bytes);
     let dec = match stage("decode", || rta::Rta::decode(der_bytes.clone(), true)) {
         Err(p) => return Ok(early(&mk, &db, p)), Ok(Err(_)) => return Ok(early(&mk, &db, "decode-err".into())), Ok(Ok(c)) => c };
     let mut dd = D::new();
@@ -1925,7 +1926,7 @@ fn emit(ctx: &mut Ctx, op: &str) {
     // times with a sub-second part (and the default signing time, which is the wall clock) lose it in the encoding
     let subsec = op.contains('.') || op.contains(" st=N");
     ctx.case(&format!("{}{} vexp={} conf={}", op, if subsec { " subsec=1" } else { "" }, vexp, if conf { 1 } else { 0 }));
-    if matches!(op.split(' ').next(), Some("cert" | "crl" | "so" | "mft" | "roa" | "aspa" | "idcert" | "sigmsg" | "csr")) {
+    if matches!(op.split(' ').next(), Some("cert" | "crl" | "so" | "mft" | "roa" | "aspa" | "idcert" | "sigmsg" | "csr" | "rta")) {
         ctx.case(&format!("bytes {}", op));
     }
 }
@@ -2212,6 +2213,7 @@ fn exec_op(toks: &[&str]) -> String {
             "idcert" => crate::certd::exec_idc(&["idcd", &h]),
             "sigmsg" => crate::certd::exec_smsg(&["smsgd", &h]),
             "csr" => crate::csrd::exec_csr(&["csrd", "csr", &h]),
+            "rta" => crate::rtad::exec_rta(&["rtad", &h]),
             _ => return "bad-op".into(),
         };
         return format!("{} | {}", h, line);
